@@ -204,6 +204,55 @@ theorem validate_qfb (lim fee p cur : Dec) : S_validate_qfb lim fee p cur := by
     simp only [Dec.gt, Dec.lt, Bool.or_eq_true, decide_eq_true_eq, not_or, not_lt] at hc
     exact ⟨hc.1, hc.2⟩
 
+/-! ### bucket steps (keeper_swap_helper.go), regenerated -/
+
+theorem bfq_outGivenIn_reaches (lim fee cur tgt liq rem : Dec) : S_bfq_outGivenIn_reaches lim fee cur tgt liq rem := by
+  unfold S_bfq_outGivenIn_reaches
+  intro h
+  have he : Dec.equal tgt tgt = true := by simp [Dec.equal]
+  simp only [bfq_ComputeSwapWithinBucketOutGivenIn, h, if_true, he, Bool.not_true, Bool.false_eq_true, if_false, and_self]
+
+theorem qfb_outGivenIn_reaches (lim fee cur tgt liq rem : Dec) : S_qfb_outGivenIn_reaches lim fee cur tgt liq rem := by
+  unfold S_qfb_outGivenIn_reaches
+  intro h
+  have he : Dec.equal tgt tgt = true := by simp [Dec.equal]
+  simp only [qfb_ComputeSwapWithinBucketOutGivenIn, h, if_true, he, Bool.not_true, Bool.false_eq_true, if_false, and_self]
+
+theorem bfq_inGivenOut_reaches (lim fee cur tgt liq rem : Dec) : S_bfq_inGivenOut_reaches lim fee cur tgt liq rem := by
+  unfold S_bfq_inGivenOut_reaches
+  intro h
+  have he : Dec.equal tgt tgt = true := by simp [Dec.equal]
+  simp only [bfq_ComputeSwapWithinBucketInGivenOut, h, if_true, he, Bool.not_true, Bool.false_eq_true, if_false]
+  split <;> simp
+
+theorem qfb_inGivenOut_reaches (lim fee cur tgt liq rem : Dec) : S_qfb_inGivenOut_reaches lim fee cur tgt liq rem := by
+  unfold S_qfb_inGivenOut_reaches
+  intro h
+  have he : Dec.equal tgt tgt = true := by simp [Dec.equal]
+  simp only [qfb_ComputeSwapWithinBucketInGivenOut, h, if_true, he, Bool.not_true, Bool.false_eq_true, if_false]
+  split <;> simp
+theorem qfb_outGivenIn_direction (lim fee cur tgt liq rem : Dec) : S_qfb_outGivenIn_direction lim fee cur tgt liq rem := by
+  unfold S_qfb_outGivenIn_direction
+  intro hl hr hf0 hf1 h
+  have hone : 0 ≤ (Dec.sub Dec.one fee).raw := by simp only [Dec.sub, Dec.one]; omega
+  have hprod : 0 ≤ rem.raw * (Dec.sub Dec.one fee).raw := Int.mul_nonneg hr hone
+  have ha := (mul_nonneg_bounds rem (Dec.sub Dec.one fee) hprod).2.2
+  have hq := quoteIn_next_le_exact cur liq (Dec.mul rem (Dec.sub Dec.one fee))
+  unfold S_quoteIn_next_le_exact at hq
+  have hdir := (hq hl ha).2
+  simp only [qfb_ComputeSwapWithinBucketOutGivenIn, h, Bool.false_eq_true, if_false]
+  split <;> exact hdir
+
+theorem bfq_inGivenOut_out_le_remaining (lim fee cur tgt liq rem : Dec) : S_bfq_inGivenOut_out_le_remaining lim fee cur tgt liq rem := by
+  unfold S_bfq_inGivenOut_out_le_remaining
+  simp only [bfq_ComputeSwapWithinBucketInGivenOut]
+  split <;> split <;> (try split) <;> simp_all [Dec.gt] <;> omega
+
+theorem qfb_inGivenOut_out_le_remaining (lim fee cur tgt liq rem : Dec) : S_qfb_inGivenOut_out_le_remaining lim fee cur tgt liq rem := by
+  unfold S_qfb_inGivenOut_out_le_remaining
+  simp only [qfb_ComputeSwapWithinBucketInGivenOut]
+  split <;> split <;> (try split) <;> simp_all [Dec.gt] <;> omega
+
 /-- non-vacuity: concrete operands meeting the hypotheses above -/
 example : (0:Int) < (⟨2 * PREC⟩ : Dec).raw ∧ (0:Int) < (⟨5 * PREC⟩ : Dec).raw := by decide
 example : computeFeeChargePerSwapStepOutGivenIn_ok false ⟨3 * PREC⟩ ⟨4 * PREC⟩ ⟨3000000000000000⟩ = true := by decide
